@@ -30,7 +30,7 @@ open C27Driver
 unit (pre-order), and `read_after_write_vars(ir, node)` for ir = main body and the body of every loop, node = every
 node of that ir (pre-order) -/
 def step : Sexp → Option Sexp
-  | list [atom "deps", e, prog, _] => do
+  | list (atom "deps" :: e :: prog :: _) => do
       let enr ← decBool e
       let p ← decProgram prog
       let u ← findUnit p p.main
